@@ -49,7 +49,7 @@ func init() {
 		Trusted:     []string{"go/types, go/cfg (x/tools v0.50.0)", "gorilla/securecookie", "golang.org/x/oauth2"},
 		Level:       "Sound static check (all paths) that the state check dominates exchange and callbacks and that verifier/challenge/state values are the same values on both sides.",
 		Note:        "Trusted: go/types+go/cfg, securecookie, oauth2.",
-		Technique:   "static analysis: assume/guarantee must-facts dataflow over go/cfg; same-value binding patterns",
+		Technique:   "static analysis: assume/guarantee must-facts dataflow over go/cfg; same-value binding patterns; getter-anchored who-may-write table for the PKCE switch",
 		Rules:       []string{"E1", "E6.R-closure-shared"},
 		Run: func(c *Ctx) {
 			RunE1(c, "C17", obs)
